@@ -74,6 +74,95 @@ theorem duplicate_idempotent (s : Bool) (h : Option (Msg α)) (m : Msg α) :
       cases s <;> simp [upd, hg, hmm]
     · simp [upd, hg]
 
+/-- Which of several equal-timestamp values is held (not demanded by the property, but fixed by the
+code and therefore modelled and corresponded): with the `<=` guard (balances, open orders) the
+LAST delivered message among those with the greatest timestamp is held … -/
+theorem nonstrict_keeps_last (ms : List (Msg α)) (r : Msg α) (h : deliver false none ms = some r) :
+    ∃ pre post, ms = pre ++ r :: post ∧ ∀ m ∈ post, m.1 < r.1 := by
+  have key : ∀ (ms : List (Msg α)) (h0 : Option (Msg α)), deliver false h0 ms = some r →
+      (∃ pre post, ms = pre ++ r :: post ∧ ∀ m ∈ post, m.1 < r.1) ∨
+      (h0 = some r ∧ ∀ m ∈ ms, m.1 < r.1) := by
+    intro ms
+    induction ms with
+    | nil => intro h0 h; right; exact ⟨by simpa [deliver] using h, by simp⟩
+    | cons m ms ih =>
+      intro h0 h
+      simp only [deliver, List.foldl_cons] at h
+      rcases ih (upd false h0 m) h with ⟨pre, post, hms, hpost⟩ | ⟨hupd, hall⟩
+      · left; exact ⟨m :: pre, post, by simp [hms], hpost⟩
+      · cases h0 with
+        | none =>
+          simp only [upd] at hupd; injection hupd with hupd; subst hupd
+          left; exact ⟨[], ms, rfl, hall⟩
+        | some c =>
+          by_cases hg : passes false c.1 m.1 = true
+          · simp only [upd, hg, ↓reduceIte] at hupd; injection hupd with hupd; subst hupd
+            left; exact ⟨[], ms, rfl, hall⟩
+          · simp only [upd, hg] at hupd; injection hupd with hupd; subst hupd
+            right; refine ⟨rfl, ?_⟩
+            intro x hx
+            rcases List.mem_cons.mp hx with rfl | hx
+            · simp [passes] at hg; omega
+            · exact hall x hx
+  rcases key ms none h with hdec | ⟨hn, _⟩
+  · exact hdec
+  · cases hn
+
+/-- … and with the strict `<` guard (last trade, top of book) the FIRST one. -/
+theorem strict_keeps_first (ms : List (Msg α)) (r : Msg α) (h : deliver true none ms = some r) :
+    ∃ pre post, ms = pre ++ r :: post ∧ ∀ m ∈ pre, m.1 < r.1 := by
+  have key : ∀ (ms : List (Msg α)) (h0 : Option (Msg α)), deliver true h0 ms = some r →
+      (∃ pre post, ms = pre ++ r :: post ∧ (∀ m ∈ pre, m.1 < r.1) ∧ (∀ c, h0 = some c → c.1 < r.1)) ∨
+      h0 = some r := by
+    intro ms
+    induction ms with
+    | nil => intro h0 h; right; simpa [deliver] using h
+    | cons m ms ih =>
+      intro h0 h
+      simp only [deliver, List.foldl_cons] at h
+      rcases ih (upd true h0 m) h with ⟨pre, post, hms, hpre, hheld⟩ | hupd
+      · left
+        cases h0 with
+        | none =>
+          have hm := hheld m (by simp [upd])
+          refine ⟨m :: pre, post, by simp [hms], ?_, by simp⟩
+          intro x hx
+          rcases List.mem_cons.mp hx with rfl | hx
+          · exact hm
+          · exact hpre x hx
+        | some c =>
+          by_cases hg : passes true c.1 m.1 = true
+          · have hm := hheld m (by simp [upd, hg])
+            have hcm : c.1 < m.1 := by simpa [passes] using hg
+            refine ⟨m :: pre, post, by simp [hms], ?_, ?_⟩
+            · intro x hx
+              rcases List.mem_cons.mp hx with rfl | hx
+              · exact hm
+              · exact hpre x hx
+            · intro c' hc'; injection hc' with hc'; subst hc'; omega
+          · have hc := hheld c (by simp [upd, hg])
+            have hmc : m.1 ≤ c.1 := by simp [passes] at hg; omega
+            refine ⟨m :: pre, post, by simp [hms], ?_, ?_⟩
+            · intro x hx
+              rcases List.mem_cons.mp hx with rfl | hx
+              · omega
+              · exact hpre x hx
+            · intro c' hc'; injection hc' with hc'; subst hc'; exact hc
+      · cases h0 with
+        | none =>
+          simp only [upd] at hupd; injection hupd with hupd; subst hupd
+          left; exact ⟨[], ms, rfl, by simp, by simp⟩
+        | some c =>
+          by_cases hg : passes true c.1 m.1 = true
+          · simp only [upd, hg, ↓reduceIte] at hupd; injection hupd with hupd; subst hupd
+            left; refine ⟨[], ms, rfl, by simp, ?_⟩
+            intro c' hc'; injection hc' with hc'; subst hc'; simpa [passes] using hg
+          · simp only [upd, hg] at hupd; injection hupd with hupd; subst hupd
+            right; rfl
+  rcases key ms none h with ⟨pre, post, h1, h2, _⟩ | hn
+  · exact ⟨pre, post, h1, h2⟩
+  · cases hn
+
 /-! ### Engine level: routing and the three concrete registers -/
 
 /-- A balance for asset `a` updates exactly that asset's register with the `<=` guard and touches
